@@ -19,6 +19,8 @@ def refl(n, i):
 
 def data_for(case, size):
     rng = np.random.default_rng(case["dseed"])
+    if case.get("long"):
+        return (1000.0 + rng.integers(-12, 13, size=size) / 4.0).astype(np.float32)
     if case["dt"] == "u1":
         return rng.integers(200, 256, size=size).astype(np.uint8)      # near the top: provokes overflow in a narrow accumulator
     return rng.integers(-50, 51, size=size).astype(DT[case["dt"]])
@@ -76,6 +78,12 @@ class C14(Prop):
         for _ in range(40 * k):
             cases.append({"op": "detrend", "n": rng.choice((1, 2, 3, 5, 17, 64)), "dt": rng.choice(("f4", "f8")),
                           "dseed": rng.randrange(1 << 30)})
+        # groups of several 1e5 samples of float32 data on a large baseline: the group sum has to be accumulated in
+        # double precision (the kernels declare a float64 accumulator), a float32 running sum is off by ~1e-3 here
+        for n, f in (((400000, 400000), (600001, 300000)) if tier == "quick" else ((400000, 400000), (600001, 300000), (1000000, 500000))):
+            cases.append({"op": "down1d", "n": n, "f": f, "method": "mean", "dt": "f4", "dseed": rng.randrange(1 << 30), "long": True})
+            cases.append({"op": "down2dflat", "d1": n // 100, "d2": 100, "f1": f // 100, "f2": 100, "method": "mean", "dt": "f4",
+                          "dseed": rng.randrange(1 << 30), "long": True})
         # long series: the closed-form sums m(m-1)/2, m(m-1)(2m-1)/6 and m*Sxx - Sx^2 pass 2^53 / 2^63 here
         for n in ((120001, 300000) if tier == "quick" else (120001, 300000, 1000003)):
             cases.append({"op": "detrend", "n": n, "dt": "f8", "dseed": rng.randrange(1 << 30)})
@@ -202,6 +210,8 @@ class C14(Prop):
         if list(got.shape) != list(want.shape):
             return f"{op}: output shape {list(got.shape)}, the definition has {list(want.shape)} ({ {k: v for k, v in case.items() if k != 'dseed'} })"
         tol = 1e-4 if case["dt"] == "f4" or op in ("detrend",) or case.get("via") == "ts" else 1e-9
+        if case.get("long"):
+            tol = 2e-7          # one float32 rounding of the result
         bad = np.argwhere(np.abs(got - want) > tol * (1 + np.abs(want)))
         if len(bad):
             i = tuple(bad[0])
@@ -220,6 +230,8 @@ class C14(Prop):
             return [f"C14 runmean {case['n']} {case['w']} {' '.join(str(int(v)) for v in x)}"]
         if op == "running":
             return [f"C14 runidx {case['n']} {case['w']}"]
+        if case.get("long"):
+            return []
         if op == "down1d" and case["method"] == "mean":
             x = data_for(case, case["n"])
             return [f"C14 down1d {case['n']} {case['f']} {' '.join(str(int(v)) for v in x)}"]
